@@ -90,7 +90,7 @@ def run(ck):
     tmpd = tempfile.mkdtemp(prefix='kv_c14_')
     try:
         flines, fmeta = [], []
-        for k in range(40 if ck.tier == 'quick' else 300):
+        for k in range(60 if ck.tier == 'quick' else 300):
             kind = 'dna' if k % 2 == 0 else 'protein'
             alpha = 'ACGTN' if kind == 'dna' else gen.PROT
             L = rng.range(12, 40)
@@ -106,6 +106,13 @@ def run(ck):
             order = list(range(len(seqs))); rng.shuffle(order)
             names = [names[i] for i in order]; seqs = [seqs[i] for i in order]
             alt = [respell(rng, x, kind) for x in seqs]
+            # the twins' first residues in the two spellings: upper/upper in one, lower/upper in the other (byte order A < C < a):
+            # anything that orders equal-name records by their raw residues sees the two spellings differently
+            ti = [i for i, n in enumerate(names) if n == 'twin']
+            if len(ti) == 2 and seqs[ti[0]][0].upper() != seqs[ti[1]][0].upper():
+                lo, hi = sorted(ti, key=lambda i: seqs[i][0].upper())
+                seqs[lo] = seqs[lo][0].upper() + seqs[lo][1:]; seqs[hi] = seqs[hi][0].upper() + seqs[hi][1:]
+                alt[lo] = alt[lo][0].lower() + alt[lo][1:]; alt[hi] = alt[hi][0].upper() + alt[hi][1:]
             if kind == 'dna' and k % 3 == 2:
                 # several input files and IUPAC ambiguity codes in lower case (about 8% of the residues): the histograms of the
                 # files are merged and the kind is detected again; the all-upper spelling must be treated alike
